@@ -31,7 +31,7 @@ def tokensOf (j : Json) : Except String (List Token) := do
 
 def passes : List (String × (Text → Text)) :=
   [("first_comments", suppressFirstComments),
-   ("guard_line", fun t => if guardLine t then "1".toList else "0".toList),
+   ("double_braces", doubleBraces),
    ("sys_path", suppressSysPath), ("tabs", expandTabs),
    ("blank_lines", suppressBlankLines), ("useless_pass", suppressUselessPass),
    ("strip", strip), ("finish", finish),
@@ -51,8 +51,8 @@ def modelPass : Handler := fun j => do
     else
       pure (Json.mkObj [("r", Json.arr (ts.map fun t => txt (f t.toList)).toArray)])
 
-/-- The parser oracle as sent by the harness: `null`, or a list of `[lineno, end_lineno]`. -/
-def rangesOf (j : Json) : Except String (Option (List (Nat × Nat))) :=
+/-- The parser oracle as sent by the harness: `null`, or a list of `[lineno, end_lineno, isGuard]`. -/
+def rangesOf (j : Json) : Except String (Option (List IfStmt)) :=
   match j with
   | Json.null => pure none
   | _ => do
@@ -60,8 +60,8 @@ def rangesOf (j : Json) : Except String (Option (List (Nat × Nat))) :=
     let rs ← a.toList.mapM fun x => do
       let l ← intList x
       match l with
-      | [p, q] => pure (p.toNat, q.toNat)
-      | _ => throw "range must be [lineno, end_lineno]"
+      | [p, q, g] => pure (⟨p.toNat, q.toNat, g != 0⟩ : IfStmt)
+      | _ => throw "range must be [lineno, end_lineno, isGuard]"
     pure (some rs)
 
 /-- `c13.model.guard`: `cases` = list of `{text, ifs, ifs1}`; answers `[suppress_main_guard(text) with
